@@ -9,8 +9,11 @@
 (* evaluated on every state of every explained trace.                         *)
 EXTENDS Conn, VerifTrace
 
-VARIABLES l, on      \* on: between "ready" and "cleanup" of the current trace
-tvars == <<vars, l, on>>
+VARIABLES l, on,     \* on: between "ready" and "cleanup" of the current trace
+          owed       \* observations logged by OTHER goroutines that may overtake the `cs` line of the critical section
+                     \* that caused them (the hook logs at the end of the section, the effect - a closed channel, a
+                     \* cancelled context - is visible inside it); they are settled at the next quiescence marker
+tvars == <<vars, l, on, owed>>
 
 TraceCancelOf == [x1 |-> "r1", x2 |-> "r2", x3 |-> "r3", x4 |-> "r4"]
 TraceDupOf == [d1 |-> "r1", d2 |-> "r2"]
@@ -63,11 +66,7 @@ Consume(e) ==
   CASE e.ev = "cs" -> CSAction(e.fn) /\ Snap(e)
     [] e.ev = "call.begin" -> CallStart(e.k)
     [] e.ev = "ctx.cancel" -> IF ENABLED CtxCancel(e.k) THEN CtxCancel(e.k) ELSE Same
-    [] e.ev = "call.end" ->
-         /\ cpc[e.k] = "done" /\ Same
-         /\ (e.kind \in {"result", "wireerror"} /\ (e.kind = "result" \/ e.code = -32050)) => outcome[e.k] = "response"
-         /\ e.kind = "closed" => outcome[e.k] \in {"closed", "writeerr", "readerr"}
-         /\ e.kind = "ctx" => ctxDone[e.k]
+    [] e.ev = "call.end" -> Same
     [] e.ev = "wr.end" ->
          (CASE e.kind = "call" /\ e.ref \in Callers -> CallWriterReturn(e.ref, e.outcome)
             [] e.kind = "notif" /\ e.method = "notifications/cancelled" ->
@@ -83,13 +82,23 @@ Consume(e) ==
             [] e.kind = "resp" -> IF e.k \in Callers /\ e.k \in sent THEN ReadResp(e.k) ELSE ReadRespUnknown)
     [] e.ev = "rd.err" -> ReadEOF
     [] e.ev = "h.start" -> hpc[e.r] = "run" /\ Same
-    [] e.ev = "h.ctxdone" -> hctx[e.r] = "cancelled" /\ Same
+    [] e.ev = "h.ctxdone" -> Same
     [] e.ev = "h.end" -> HReturn(e.r)
     [] e.ev = "close.begin" -> CloseStart(e.c)
     [] e.ev = "close.end" -> clpc[e.c] = "done" /\ Same
     [] e.ev = "wait.begin" -> WaitStart(e.w)
     [] e.ev = "wait.end" -> wtpc[e.w] = "done" /\ Same
     [] OTHER -> Same     \* markers and lines without a model counterpart (wr.begin, tr.close, step, ...)
+
+CallEndOK(e) ==
+  /\ cpc[e.k] = "done"
+  /\ (e.kind \in {"result", "wireerror"} /\ (e.kind = "result" \/ e.code = -32050)) => outcome[e.k] = "response"
+  /\ e.kind = "closed" => outcome[e.k] \in {"closed", "writeerr", "readerr"}
+  /\ e.kind = "ctx" => ctxDone[e.k]
+Settled(o) == IF o.ev = "call.end" THEN CallEndOK(o) ELSE hctx[o.r] \in {"cancelled"} \/ rp[o.r] = "done"
+Owe(e) == IF e.ev = "call.end" THEN [ev |-> "call.end", k |-> e.k, r |-> "", kind |-> e.kind, code |-> e.code]
+          ELSE [ev |-> "h.ctxdone", k |-> "", r |-> e.r, kind |-> "", code |-> 0]
+IsMarker(e) == e.ev \in {"step", "drain1", "quiesce1", "cleanup"}
 
 \* internal steps of the SDK that are not critical sections
 Silent ==
@@ -98,16 +107,18 @@ Silent ==
   \/ \E c \in DOMAIN CancelOf : CancelCtx(c) \/ HReturn(c)   \* the SDK's own no-op handler of notifications/cancelled
   \/ ReaderRpDone \/ DispCheck \/ DispRpDone \/ DispResume
 
-TInit == Init /\ l = 1 /\ on = FALSE /\ MarkInit
+TInit == Init /\ l = 1 /\ on = FALSE /\ owed = {} /\ MarkInit
 TNext ==
   \/ /\ l <= NLines /\ l' = l + 1
      /\ LET e == TraceLog[l] IN
-          CASE e.ev = "reset"   -> ResetAll /\ on' = FALSE
-            [] e.ev = "ready"   -> Same /\ on' = TRUE
-            [] e.ev = "cleanup" -> Same /\ on' = FALSE
-            [] ~on              -> Same /\ on' = on
-            [] OTHER            -> Consume(e) /\ on' = on
-  \/ (on /\ Silent /\ UNCHANGED <<l, on>>)
+          CASE e.ev = "reset"   -> ResetAll /\ on' = FALSE /\ owed' = {}
+            [] e.ev = "ready"   -> Same /\ on' = TRUE /\ owed' = {}
+            [] ~on              -> Same /\ on' = on /\ owed' = owed
+            \* at a quiescence marker everything observed so far must be explained by the state reached
+            [] IsMarker(e)      -> Same /\ on' = (e.ev # "cleanup") /\ (\A o \in owed : Settled(o)) /\ owed' = {}
+            [] e.ev \in {"call.end", "h.ctxdone"} -> Same /\ on' = on /\ owed' = owed \cup {Owe(e)}
+            [] OTHER            -> Consume(e) /\ on' = on /\ owed' = owed
+  \/ (on /\ Silent /\ UNCHANGED <<l, on, owed>>)
 TSpec == TInit /\ [][TNext]_tvars
 TMark == MarkAt(l)
 TAccepted == Accepted
